@@ -54,6 +54,13 @@ CHECKS["C18"] = dict(
     technique="constant evaluation (abstract interpretation with concrete integers) of the parameter tables over the clang CFG + independent arithmetic",
 )
 
+CHECKS["C03"] = dict(
+    text="Static decision of two structural clauses over all 35 scalar-multiplication bodies of the prime-curve module (variable base, fixed base, simultaneous, incl. static helpers): on every path to a normal return the result is last written by a normalisation, ep_set_infty, a delegation to another routine of the family, or a form-preserving step (SM-NORM; forward must-dataflow over the exploded CFG, evaluated per world of the configuration queries such as ep_curve_is_endom()), and every scalar reaching a recoder that writes a fixed-size array was reduced modulo the group order or decomposed from such a value (SM-RED; bit-length bounds propagated through bn_mod / bn_abs / bn_rec_glv). Right level: the suite compares with ep_cmp, which cross-multiplies by Z, so a dropped normalisation passes it; long scalars are never generated. The group law, the meaning of recodings and exceptional-case dispatch are value properties and are not decided.",
+    design_ref="DESIGN.md section 3 (C03)",
+    note="Trusted: clang parser/CFG, extractor, the tables of normalisers / form-preserving steps and of bit-length-preserving bn operations; configuration queries are assumed to return the same value at every test within one call. Validated on every run by miniatures in sa/selftest/c03.c.",
+    technique="forward must-dataflow (must-pass-through with delegation closure) over the clang CFG",
+)
+
 NOT_APPLICABLE = {
     "C10": "every clause is an equality of ring elements for all operand values; no guard, ordering or ownership structure whose violation is visible in the code's shape, and lazy-reduction bounds need a relational numeric domain that goto-analyzer's intervals cannot carry across the *_low calls",
     "C11": "group law, [k]Q, Frobenius eigenvalue and cofactor image are algebraic identities over runtime values; the structural clauses (decoders, buffers, regularity) of the ep2..ep8 siblings are decided under C07, C08 and C20",
